@@ -4,11 +4,17 @@
 package main
 
 import (
+	"context"
 	"errors"
 	"fmt"
 	"math"
+	"os"
+	"os/exec"
+	"path/filepath"
 	"strconv"
 	"strings"
+	"sync"
+	"time"
 
 	"github.com/lni/dragonboat/v4/logger"
 	pb "github.com/lni/dragonboat/v4/raftpb"
@@ -329,6 +335,12 @@ func (m *impl) exec(f []string) string {
 				m.log.Commit(m.queue[0].ud)
 				m.queue = m.queue[1:]
 			}
+		case "XS": // the store alone drops entries (compaction by another path): it now holds less than the reader claims
+			m.st.removeTo(u(f[1]))
+		case "LR": // LogReader.SetRange called directly: the reader claims less / more than the store holds
+			m.lr.SetRange(u(f[1]), u(f[2]))
+		case "CC": // concurrent callers on the LogReader (step worker vs snapshot/compaction goroutines); no state change
+			m.conc(int(u(f[1])))
 		case "S":
 			_, err = m.log.Restore(u(f[1]), u(f[2]))
 		case "X":
@@ -350,6 +362,105 @@ func (m *impl) exec(f []string) string {
 		return "err:" + errName(err)
 	}
 	return "ok"
+}
+
+// conc: what runs concurrently in a NodeHost - the step worker reading through the
+// LogReader (Term / Entries / GetRange / NodeState / Snapshot) while other goroutines
+// call its mutators. The mutators used here are no-ops on the value level
+// (Compact to the current marker, SetState with the current state), so the case
+// stays deterministic; a -race build (thorough tier, child process) sees any
+// unsynchronised access.
+func (m *impl) conc(n int) {
+	first, last := m.lr.GetRange()
+	marker := first - 1
+	st, _ := m.lr.NodeState()
+	var wg sync.WaitGroup
+	wg.Add(3)
+	go func() {
+		defer wg.Done()
+		for i := 0; i < n; i++ {
+			_ = m.lr.Compact(marker)
+			m.lr.SetState(st)
+			m.lr.SetRange(first, 0)
+		}
+	}()
+	for r := 0; r < 2; r++ {
+		go func(r int) {
+			defer wg.Done()
+			for i := 0; i < n; i++ {
+				_, _ = m.lr.Term(marker + uint64((i+r)%3))
+				_, _ = m.lr.GetRange()
+				_, _ = m.lr.Entries(first, last+1, uint64(i%500))
+				_, _ = m.lr.NodeState()
+				_ = m.lr.Snapshot()
+			}
+		}(r)
+	}
+	wg.Wait()
+}
+
+// concRun: a populated log over the abstract and over a real store, then many
+// rounds of concurrent LogReader callers. Meant to run under the race detector.
+func concRun(n int) {
+	if n <= 0 {
+		n = 2000
+	}
+	for _, kind := range []string{"mem", "plain"} {
+		h := parseHeader(strings.Fields("I 3 2 4 1000 1 4:2:1:5,5:2:2:0,6:3:3:9 st=" + kind))
+		m := newImpl(h)
+		for _, o := range []string{"A 7:3:4:0,8:3:5:1", "C 7", "G 1 3", "P", "K", "X 4", "G 1 5", "P", "K"} {
+			if out := m.exec(strings.Fields(o)); out != "ok" {
+				panic(o + ": " + out)
+			}
+		}
+		m.conc(n)
+		m.st.release()
+	}
+	fmt.Println("conc done")
+}
+
+// raceChild builds this harness with -race and runs its conc mode: the only way an
+// unsynchronised access in LogReader (step worker vs snapshot/compaction goroutines)
+// can be exhibited. Skipped with a note when no C toolchain is available.
+func raceChild(st *vh.Stats) {
+	exe, err := os.Executable()
+	if err != nil {
+		st.Notes["race_child"] = "skipped: " + err.Error()
+		return
+	}
+	base := filepath.Dir(filepath.Dir(filepath.Dir(exe))) // <B>/.work/bin/<exe>
+	src := filepath.Join(base, "harness")
+	bin := filepath.Join(base, ".work", "bin", "c19-race")
+	env := append(os.Environ(), "CGO_ENABLED=1", "GOFLAGS=-mod=mod", "GOPROXY=off", "GOSUMDB=off", "GOTOOLCHAIN=local")
+	ctx, cancel := context.WithTimeout(context.Background(), 15*time.Minute)
+	defer cancel()
+	b := exec.CommandContext(ctx, "go", "build", "-race", "-tags", "verif", "-o", bin, "./cmd/c19")
+	b.Dir, b.Env = src, env
+	if out, err := b.CombinedOutput(); err != nil {
+		msg := string(out)
+		if len(msg) > 300 {
+			msg = msg[len(msg)-300:]
+		}
+		st.Notes["race_child"] = "skipped: -race build failed: " + msg
+		return
+	}
+	c := exec.CommandContext(ctx, bin, "conc", "-n", "3000")
+	c.Env = append(os.Environ(), "GORACE=halt_on_error=1 exitcode=66")
+	out, err := c.CombinedOutput()
+	txt := string(out)
+	if i := strings.Index(txt, "WARNING: DATA RACE"); i >= 0 || err != nil {
+		if i < 0 {
+			i = 0
+		}
+		msg := txt[i:]
+		if len(msg) > 1200 {
+			msg = msg[:1200]
+		}
+		st.Violation("CONC", "data race between concurrent LogReader callers (-race child): "+strings.ReplaceAll(msg, "\n", " | "))
+		return
+	}
+	st.Notes["race_child"] = "ran under -race: 2 stores x 3000 rounds of Term/GetRange/Entries/NodeState/Snapshot against Compact/SetState/SetRange, no data race"
+	st.Count("race-child.ran")
 }
 
 type nopCompactor struct{}
@@ -490,7 +601,7 @@ func main() {
 	case "gen":
 		n := 1500
 		if a.Tier == "thorough" {
-			n = 60000
+			n = 15000
 		}
 		if a.N > 0 {
 			n = a.N
@@ -509,10 +620,17 @@ func main() {
 			"(differential only, panics compared). non-trivial = the case contains a truncating append (first new index <= last index) " +
 			"followed by a completed GetUpdate/Commit cycle; distinct by full case text")
 		obs := vh.Create(a.Out + "/impl.obs")
-		for _, line := range vh.ReadLines(a.Cases) {
+		lines := vh.ReadLines(a.Cases)
+		for _, line := range lines {
 			runCase(line, obs, st)
 		}
 		obs.Close()
+		if a.Tier == "thorough" && len(lines) > 100 {
+			raceChild(st)
+		}
 		st.Write(a.Out)
+	case "conc":
+		// child of the thorough tier, built with -race: concurrent LogReader callers
+		concRun(a.N)
 	}
 }
